@@ -869,10 +869,10 @@ def parse_apbs_input(text):
     return mols, elecs
 
 
-def check_apbs_input(in_text, pqr_name, lo, hi, fresh, tag, col, case,
+def check_apbs_input(in_text, pqr_name, lo, hi, fresh, tag, lctx, col, case,
                      context):
     """in_text: APBS input; lo/hi: true hull (A, floats); fresh: Psize of
-    the same PQR file (or None)."""
+    the same PQR file (or None); tag: seam; lctx: layout class."""
     mols, elecs = parse_apbs_input(in_text)
     if mols != [pqr_name]:
         col.fail(f"C17/{tag}/input-does-not-name-the-pqr",
@@ -888,18 +888,23 @@ def check_apbs_input(in_text, pqr_name, lo, hi, fresh, tag, col, case,
         dime = [float(v) for v in e["dime"]]
         cg = [float(v) for v in e["cglen"]]
         fg = [float(v) for v in e["fglen"]]
-        clause = []
+        small = set()
+        other = set()
         for i in range(3):
             ext = hi[i] - lo[i]
             if cg[i] < ext - 1e-4:
-                clause.append("cglen-smaller-than-the-molecule")
+                small.add("cglen")
             if fg[i] < ext - 1e-4:
-                clause.append("fglen-smaller-than-the-molecule")
+                small.add("fglen")
             if fg[i] > cg[i] + 1e-4:
-                clause.append("fglen-larger-than-cglen")
+                other.add("fglen-larger-than-cglen")
             if not _is_grid_count(dime[i]):
-                clause.append("dime-not-32k+1>=33")
-        for c in sorted(set(clause)):
+                other.add("dime-not-32k+1>=33")
+        if small:
+            col.fail(f"C17/{tag}/box-smaller-than-the-molecule/layout:{lctx}",
+                     {"elec": e, "too_small": sorted(small),
+                      "hull": [lo, hi], **context}, case)
+        for c in sorted(other):
             col.fail(f"C17/{tag}/{c}",
                      {"elec": e, "hull": [lo, hi], **context}, case)
         if fresh is not None:
@@ -912,7 +917,7 @@ def check_apbs_input(in_text, pqr_name, lo, hi, fresh, tag, col, case,
                 if e[k] != w:
                     col.fail(f"C17/{tag}/{k}-differs-from-sizing",
                              {"written": e[k], "psize": w, **context}, case)
-    col.events[f"{tag}:input-checked:{elecs[0]['method']}"] += 1
+    col.events[f"{tag}:input-checked:{elecs[0]['method']}:{lctx}"] += 1
 
 
 D_GEOMS = [
@@ -980,8 +985,8 @@ def dump_one(atoms, layout, hdr, name, eol, col, case):
             fresh.set_all()
         except Exception:
             fresh = None
-        check_apbs_input(plain[1], name, lo, hi, fresh, "dump_apbs", col,
-                         case, ctx)
+        check_apbs_input(plain[1], name, lo, hi, fresh, "dump_apbs", lctx,
+                         col, case, ctx)
         return
     body = [HEADER_KINDS[h] for h in hdr] + lines + ["TER", "END"]
     got = dump(body)
@@ -1113,8 +1118,8 @@ def run_e2e(case, col):
         fresh.run_psize(str(r.out_path))
     except Exception:
         fresh = None
-    check_apbs_input(inp.read_text(), out_name, lo, hi, fresh,
-                     f"e2e/layout:{lctx}", col, dict(case), ctx)
+    check_apbs_input(inp.read_text(), out_name, lo, hi, fresh, "e2e", lctx,
+                     col, dict(case), ctx)
     if fresh is not None and "size" in seen:
         doubled = [k for k in ("gotatom", "gothet", "charge")
                    if seen["size"].get(k) != getattr(fresh, k)]
@@ -1215,7 +1220,7 @@ def enumerate_cases(tier, seed):
     # --- geometry -------------------------------------------------------
     for s, o, lay in _placements(order):
         cases.append({"kind": "geom", "n": 1, "scale": s, "offset": o,
-                      "layout": lay, "params": P27})
+                      "layout": lay, "params": P27 if thorough else P7})
     for s, o, lay in _placements(order):
         cases.append({"kind": "geom", "n": 1, "scale": s, "offset": o,
                       "layout": lay, "params": P1, "records": True})
@@ -1274,8 +1279,8 @@ def enumerate_cases(tier, seed):
         cases.append({"kind": "dump", "scale": s, "offset": o, "layout": lay})
     # --- the program ---------------------------------------------------------
     e2e = []
-    for shift in E_SHIFTS:
-        for seq in E_SEQS:
+    for shift in (E_SHIFTS if thorough else ("0", "+500", "mixed", "+1000")):
+        for seq in (E_SEQS if thorough else ("A", "AGS", "KDHC")):
             for optk in E_OPTS:
                 for ff in (("AMBER", "PARSE", "CHARMM") if thorough
                            else ("AMBER",)):
